@@ -11,7 +11,7 @@ Inductive recv := RRef | RMut | ROwn.
 Definition leaf := Z.
 
 Inductive ashape :=                    (* argument shapes *)
-| APrim | ASlice | ASliceMut | AStr | AOpt | AOptRef | AInto | ARefMut | ACallback | APod | ARef | AIter.
+| APrim | ASlice | ASliceMut | AStr | AOpt | AOptRef | AInto | ARefMut | ACallback | APod | ARef | AIter | AResult.
 Inductive rshape :=                    (* return shapes *)
 | QUnit | QPrim | QSlice | QStr | QOpt | QOptRef | QResUnitErr | QResEmpty | QSliceMut | QPod | QRef
 | QResU8Err | QResIoErr.
@@ -56,12 +56,12 @@ Definition arg_cty (a : ashape * leaf) : cty :=
   match s with
   | APrim => CLeaf l | ASlice => CSliceRef l | ASliceMut => CSliceMut l | AStr => CSliceRef 0
   | AOpt => COptionC l | AOptRef => COptRefFwd l | AInto => CLeaf l | ARefMut => CRefMut l
-  | ACallback => CCallback l | APod => CPod | ARef => CRef l | AIter => CIter l
+  | ACallback => CCallback l | APod => CPod | ARef => CRef l | AIter => CIter l | AResult => CResultC l 0
   end.
 Definition arg_wconv (a : ashape * leaf) : conv :=
-  match fst a with ASlice | ASliceMut | AOpt => VInto | AStr => VIntoStr | _ => VId end.
+  match fst a with ASlice | ASliceMut | AOpt | AResult => VInto | AStr => VIntoStr | _ => VId end.
 Definition arg_iconv (a : ashape * leaf) : conv :=
-  match fst a with ASlice | ASliceMut | AStr | AOpt | AInto => VInto | _ => VId end.
+  match fst a with ASlice | ASliceMut | AStr | AOpt | AInto | AResult => VInto | _ => VId end.
 
 Definition is_result (r : rshape) : bool :=
   match r with QResUnitErr | QResEmpty | QResU8Err | QResIoErr => true | _ => false end.
@@ -130,11 +130,16 @@ Definition dec_recv (z : Z) : recv := if z =? 0 then RRef else if z =? 1 then RM
 Definition dec_ashape (z : Z) : ashape :=
   if z =? 0 then APrim else if z =? 1 then ASlice else if z =? 2 then ASliceMut else if z =? 3 then AStr else if z =? 4 then AOpt
   else if z =? 5 then AOptRef else if z =? 6 then AInto else if z =? 7 then ARefMut else if z =? 8 then ACallback else if z =? 9 then APod
-  else if z =? 10 then ARef else AIter.
+  else if z =? 10 then ARef else if z =? 11 then AIter
+  else if (z =? 12) || (z =? 13) then AResult          (* Result<T, u8>, also written std::result::Result<T, u8> *)
+  else if z =? 14 then AOpt                             (* std::option::Option<T> *)
+  else AIter.
 Definition dec_rshape (z : Z) : rshape :=
   if z =? 0 then QUnit else if z =? 1 then QPrim else if z =? 2 then QSlice else if z =? 3 then QStr else if z =? 4 then QOpt
   else if z =? 5 then QOptRef else if z =? 6 then QResUnitErr else if z =? 7 then QResEmpty else if z =? 8 then QSliceMut
-  else if z =? 9 then QPod else if z =? 10 then QRef else if z =? 11 then QResU8Err else QResIoErr.
+  else if z =? 9 then QPod else if z =? 10 then QRef else if (z =? 11) || (z =? 13) then QResU8Err      (* 13: std::result::Result<T, u8> *)
+  else if z =? 14 then QOpt                                                                               (* std::option::Option<T> *)
+  else QResIoErr.
 Fixpoint dec_args (n : nat) (l : list Z) : list (ashape * leaf) :=
   match n, l with
   | S n, s :: lf :: r => (dec_ashape s, lf mod 9) :: dec_args n r
@@ -191,6 +196,7 @@ Definition to_c (c : conv) (v : rval) : option cval :=
   | VInto, RvSlice a n => Some (CvSlice a n)                         (* CSliceRef/CSliceMut::from(&[T]) *)
   | VInto, RvStr a n => Some (CvSlice a n)                           (* CSliceRef::from(&str) *)
   | VInto, RvNone => Some CvCOptNone | VInto, RvSomeV x => Some (CvCOptSome x)
+  | VInto, RvOk x => Some (CvCResOk x) | VInto, RvErr e => Some (CvCResErr e)   (* CResult::from(Result) *)
   | VId, RvNone => Some (CvOptRef 0) | VId, RvSomeRef a => if a =? 0 then None else Some (CvOptRef a)
   | VId, RvRef a => Some (CvPtr a)
   | VId, RvOpaque t x => Some (CvOpaque t x)
@@ -203,6 +209,7 @@ Definition from_c (c : conv) (s : ashape) (v : cval) : option rval :=
   | VInto, (ASlice | ASliceMut), CvSlice a n => Some (RvSlice a n)
   | VIntoStr, AStr, CvSlice a n => Some (RvStr a n)
   | VInto, AOpt, CvCOptNone => Some RvNone | VInto, AOpt, CvCOptSome x => Some (RvSomeV x)
+  | VInto, AResult, CvCResOk x => Some (RvOk x) | VInto, AResult, CvCResErr e => Some (RvErr e)
   | VId, AOptRef, CvOptRef p => Some (if p =? 0 then RvNone else RvSomeRef p)
   | VId, (ARefMut | ARef), CvPtr a => Some (RvRef a)
   | VId, (ACallback | APod | AIter), CvOpaque t x => Some (RvOpaque t x)
@@ -216,6 +223,7 @@ Definition arg_ok (s : ashape) (v : rval) : bool :=
   | (ASlice | ASliceMut), RvSlice _ _ => true
   | AStr, RvStr _ _ => true
   | AOpt, (RvNone | RvSomeV _) => true
+  | AResult, (RvOk _ | RvErr _) => true
   | AOptRef, RvNone => true | AOptRef, RvSomeRef a => negb (a =? 0)
   | (ARefMut | ARef), RvRef _ => true
   | (ACallback | APod | AIter), RvOpaque _ _ => true
